@@ -15,9 +15,10 @@ from ..libmodel import kinds_in, top_kind
 
 LEVEL = "exploration"
 RULE = ("(a) missing-key sweep, exhaustive: every parameter slot that accepts a context expression (~40 slots over 30 classes) set to this.missing / "
-        "this._.missing / this._params.missing / this._root.missing, alone and under each of 24 wrappers, sizeof() called without and with the key; "
+        "this._.missing / this._params.missing / this._root.missing / plain callables using attribute or item access, alone and under each of 24 wrappers, sizeof() called without and with the key; "
         "(b) typed-grammar recipes and explicit context-sized templates x keyword contexts x generated values: measured advance of build_stream and "
-        "parse_stream(built+junk) at offsets 0 and k against the returned size. non-trivial = a missing-key case, or a context-dependent size that "
+        "parse_stream(built+junk) at offsets 0 and k against the returned size; templates include zero-width Peek over matching, mismatching and too-short "
+        "data and Lazy/LazyStruct over members whose actual size is read from the stream; random recipes are also wrapped in Lazy / placed behind a Peek. non-trivial = a missing-key case, or a context-dependent size that "
         "answered and was measured on >= 2 values; distinct by (recipe shape, slot/wrapper or kwargs)")
 ASSUMPTIONS = ["exempt by documentation: transforms that read to end of stream regardless of declared size when not enclosed in a delimiter (ProcessXor, "
                "ProcessRotateLeft, Compressed) - their parse advance is not compared; negative lengths and modulus < 2 are not generated"]
